@@ -162,6 +162,11 @@ func main() {
 		sr := dbt.SnapshotRetention(base)
 		flush(sr)
 		sr.Close()
+		tf := mk()
+		tf.Hist = 8889
+		dbt.TxnFailureScenario(tf)
+		flush(tf)
+		tf.Close()
 	case "alias":
 		e := mk()
 		dbt.AliasScenarios(e)
